@@ -86,6 +86,20 @@ def generate(repo, ws, write_if_changed):
             raise sl.SliceError(f"fn {need} not found in header_ex.rs")
     emit("header_ex_c30.rs", slice_file(repo, "node/src/p2p/header_ex.rs",
                                         [dict(kind="fn", name=n) for n in parse_fns]))
+    emit("header_session_c26.rs",
+         slice_file(repo, "node/src/p2p/header_session.rs", [
+             dict(kind="const", name="MIN_AMOUNT_PER_REQ"),
+             dict(kind="const", name="MAX_AMOUNT_PER_REQ"),
+             dict(kind="const", name="MAX_CONCURRENT_REQS"),
+             dict(kind="type", name="Result"),
+             dict(kind="type", name="TaskResult"),
+             dict(kind="struct", name="HeaderSession"),
+             dict(kind="impl", impl=r"^impl HeaderSession$"),
+             dict(kind="fn", name="take_next_batch"),
+         ]) + slice_file(repo, utl, [
+             dict(kind="trait", name="HeaderRequestExt"),
+             dict(kind="impl", impl=r"impl HeaderRequestExt for HeaderRequest"),
+         ]))
     emit("namespace_proof_c16.rs", slice_file(repo, "types/src/nmt/namespace_proof.rs", [
         dict(kind="fn", name="total_leaves", impl=r"^impl NamespaceProof$", wrap="impl NamespaceProof"),
     ]))
